@@ -98,6 +98,30 @@ let check_frag_op (op : string) (f : int -> string) (impl : string) =
       end else begin
         let p = dpen (f 3) in
         if n = 0 then say "C03" "ok" "empty"
+        else if n > 400 then begin
+          (* too many fragments for the quadratic reference search: the arrangement of the model of
+             smawk is an upper bound on the minimum, so a dearer answer is not minimum-cost *)
+          if c03_pre fs lws then begin
+            let p = dpen (f 3) in
+            let ranges = List.map (fun (a, l) -> (nat_of_int a, nat_of_int (a + l))) gs in
+            let ci = fq (arrangement_cost numQ p fs lws ranges) in
+            let model_groups =
+              if all_int [f 1; f 2] then
+                (match optimal_fit_smawk numZ (fun a b -> Z.eqb (Obj.obj a) (Obj.obj b)) (fun x -> x) p
+                         (List.map (dfrag_with zconv) (dlist (f 1))) (List.map zconv (dlist (f 2))) with
+                 | Some g -> Some (List.map List.length g) | None -> None)
+              else (match optimal_fit_smawk numQ (fun a b -> qeq_bool (Obj.obj a) (Obj.obj b)) (fun x -> x) p fs lws with
+                    | Some g -> Some (List.map List.length g) | None -> None) in
+            match model_groups with
+            | Some lens ->
+                let off = ref 0 in
+                let mr = List.map (fun l -> let r = (nat_of_int !off, nat_of_int (!off + l)) in off := !off + l; r) lens in
+                let cm = fq (arrangement_cost numQ p fs lws mr) in
+                if qltb cm ci then say "C03" "FAIL" "a cheaper arrangement exists (the one the model of smawk finds), so the returned one is not minimum-cost"
+                else say "C03" "ok" "large: not dearer than the model of smawk's arrangement"
+            | None -> say "C03" "skip" "large"
+          end else say "C03" "skip" "outside the precondition"
+        end
         else if c03_pre fs lws then begin
           let ranges = List.map (fun (a, l) -> (nat_of_int a, nat_of_int (a + l))) gs in
           let ci = fq (arrangement_cost numQ p fs lws ranges) and co = fq (opt_cost numQ p fs lws) in
@@ -138,6 +162,7 @@ let check_records (recf : string) =
                        | None ->
                            say "C06" "ok" "wrap-level";
                            if n = 0 then say "C03" "ok" "empty"
+                           else if n > 400 then say "C03" "skip" "too many fragments for the quadratic reference search"
                            else if c03_pre fs lw then begin
                              let ranges = List.map (fun (a, l) -> (nat_of_int a, nat_of_int (a + l))) gs in
                              let ci = fq (arrangement_cost numQ p fs lw ranges) and co = fq (opt_cost numQ p fs lw) in
